@@ -464,6 +464,31 @@ def run_structure(rep, tier):
         except AssertionError:
             bad = True
         out(f"{FN}.check_grads:unknown-mode:CG-rejects-unknown-mode", bad, "modes=['reverse'] must be rejected, not silently skipped")
+        # a failing first-order check is the VERDICT: whatever it raises leaves check_grads unchanged; the caller's `modes` (and the default) is not edited
+
+        class _Boom(Exception):
+            pass
+        defaults0 = repr(getattr(body, "__defaults__", None))
+        for exc in (NotImplementedError, AssertionError, TypeError, ValueError, KeyError, _Boom):
+            for which in ("jvp", "vjp"):
+                def boom(*a, exc=exc):
+                    raise exc("planted")
+                stubs = dict(check_jvp=(boom if which == "jvp" else (lambda *a: None)), check_vjp=(boom if which == "vjp" else (lambda *a: None)),
+                             make_jvp=lambda f_, x_: (lambda v: (Opaque(("p",)), Opaque(("t",)))), make_vjp=lambda f_, x_: ((lambda g: Opaque(("c",))), Opaque(("y",))),
+                             vspace=lambda val: _VS("X", {"calls": [], "rec": []}), check_grads=lambda *a, **k: (lambda *b: None), get_name=lambda f_: "f")
+                for order in (1, 2):
+                    modes = ["fwd", "rev"]
+                    try:
+                        rebind(body, **stubs)(lambda p_: Opaque(("y",)), Opaque(("x",)), modes, order)
+                        got = "returned normally"
+                    except exc as e:
+                        got = "propagated" if "planted" in str(e) else f"replaced by {e!r}"
+                    except Exception as e:
+                        got = f"replaced by {type(e).__name__}"
+                    out(f"{FN}.check_grads:{exc.__name__} in check_{which},order={order}:CG-failure-propagates", got == "propagated" and modes == ["fwd", "rev"],
+                        f"check_{which} raised {exc.__name__}: check_grads {got}; caller's modes afterwards {modes}")
+        out(f"{FN}.check_grads:defaults:CG-defaults-unchanged", repr(getattr(body, "__defaults__", None)) == defaults0,
+            f"default arguments before {defaults0}, after {getattr(body, '__defaults__', None)!r}")
     guard("check_grads", cg)
 
     # ---- CC
